@@ -194,12 +194,24 @@ Theorem wrap_table_sound : forall K t,
   (forall p, In p passthrough_subset -> passes t p).
 Proof.
   intros K t H. unfold wrap_table_ok in H.
+  apply andb_true_iff in H. destruct H as [H _].
   apply andb_true_iff in H. destruct H as [H H2].
   apply andb_true_iff in H. destruct H as [_ H1].
   rewrite forallb_forall in H1, H2.
   split.
   - intros o Ho. apply op_ok_sound. apply H1. exact Ho.
   - intros p Hp. apply pass_ok_sound. apply H2. exact Hp.
+Qed.
+
+(** optional operations: absent from the table, or forwarded like the others *)
+Theorem wrap_table_optional : forall K t,
+  wrap_table_ok K t = true ->
+  forall o, In o optional_subset -> find_entry (o_name o) t = None \/ forwards K t o.
+Proof.
+  intros K t H o Ho. unfold wrap_table_ok in H.
+  apply andb_true_iff in H. destruct H as [_ H]. rewrite forallb_forall in H. specialize (H o Ho).
+  unfold opt_ok in H. destruct (find_entry (o_name o) t) as [e|] eqn:Hf; [|left; reflexivity].
+  right. apply op_ok_sound. unfold op_ok. rewrite Hf. exact H.
 Qed.
 
 (** * Consequences spelled out *)
@@ -248,6 +260,7 @@ Proof.
   destruct (Hf _ Hin) as (e & Hfe & _ & _ & _ & _ & Hw & _).
   exists e. split; [exact Hfe|]. intros E args r.
   unfold wrap_table_ok in H. apply andb_true_iff in H. destruct H as [H _].
+  apply andb_true_iff in H. destruct H as [H _].
   apply andb_true_iff in H. destruct H as [Hk _]. unfold consts_ok in Hk.
   apply andb_true_iff in Hk. destruct Hk as [Hk _]. apply andb_true_iff in Hk. destruct Hk as [Hk1 Hk2].
   apply negb_true_iff in Hk1. apply negb_true_iff in Hk2.
@@ -285,6 +298,7 @@ Proof.
   - destruct (Hf _ H2) as (e & Hfe & _ & _ & _ & _ & Hw & _). exists e. split; [exact Hfe|].
     intros E args. rewrite Hw. reflexivity.
   - unfold wrap_table_ok in H. apply andb_true_iff in H. destruct H as [H _].
+    apply andb_true_iff in H. destruct H as [H _].
     apply andb_true_iff in H. destruct H as [Hk _]. unfold consts_ok in Hk.
     apply andb_true_iff in Hk. destruct Hk as [_ Hk]. apply negb_true_iff in Hk. apply Z.eqb_neq in Hk. exact Hk.
 Qed.
